@@ -3,6 +3,7 @@ from pyvc.verify import (contract, Contract, Exc, INT_, BOOL_, STR_, BYTES_, JSO
 from spec.device import *     # noqa: ghost schema, classify, ghost_step ...
 import spec.btc               # noqa: A-BTC externals
 import spec.fs                # noqa: A-FS externals
+import spec.server_io         # noqa: request line / json / reply socket
 
 DONGLE = OBJ("ledger.hsm2dongle:HSM2Dongle", logger=OPAQUE("logger"), debug=BOOL_,
              last_comm_exception=NONE_, dongle=OPAQUE("dongle", opened=BOOL_))
